@@ -715,6 +715,17 @@ def evaluate(ck, cases):
         if t is not None:
             terms.append(t); idx.append(i)
     vals = ck.coq_eval(PRE + '\n' + std_preamble(), terms, chunk=150) if ck.model_ok else [None] * len(terms)
+    lost = [i for i, v in enumerate(vals) if v is None]
+    if lost and ck.model_ok:
+        # a shard died (under memory pressure coqc gets killed without output): evaluate its terms once more; a term
+        # that does not evaluate for a reason of its own fails again and keeps the obligation broken
+        before = [o for o in ck.obligations if o['name'] == 'coq-eval']
+        ck.obligations = [o for o in ck.obligations if o['name'] != 'coq-eval']
+        again = ck.coq_eval(PRE + '\n' + std_preamble(), [terms[i] for i in lost], chunk=60)
+        for i, v in zip(lost, again):
+            vals[i] = v
+        if all(v is not None for v in again):
+            ck.notes.append(f'{len(lost)} model evaluations repeated after a Coq shard died: {before[0]["detail"][:200] if before else ""}')
     model = [None] * len(cases)
     for i, v in zip(idx, vals):
         model[i] = v
